@@ -45,11 +45,11 @@ BOUNDS = (
     "flush key/all, resize -1..5, clock advance 0/0.5/1/2/3, hits, misses, snapshot, "
     "reset_statistics, get_hits_for_key) over <= 6 keys, LRU sizes 1-4, cleaning interval "
     "0.5-4, one third of them with a clock that also ticks 0.125 on every time.time() call "
-    "(quick 1500 histories, thorough 20000).  THREADED: 2-4 threads x 1-3 operations on one "
+    "(quick 3000 histories, thorough 40000).  THREADED: 2-4 threads x 1-3 operations on one "
     "cache, controlled schedules with pre-emption at every lock acquisition and every source "
     "line of the cache methods: exhaustive DFS with <= 2 pre-emptions for curated and seeded "
-    "2- and 3-thread programs (quick 60 programs, thorough 400, 17 of them curated; <= 400 schedules each) plus "
-    "seeded random schedules of 4-thread programs (quick 1000, thorough 10000); every history "
+    "2- and 3-thread programs (quick 80 programs, thorough 800, 17 of them curated; <= 400 schedules each) plus "
+    "seeded random schedules of 4-thread programs (quick 2000, thorough 25000); every history "
     "plus a sequential audit (counters, recency order, get of every key) is checked for a "
     "sequential witness by exhaustive search.  Not covered: pre-emption inside a bytecode "
     "(A-gil), mutation of an Answer after put, more than 4 threads / 6 keys."
@@ -903,7 +903,7 @@ def run(R):
                % (kind, init, depth, n, "" if complete else " (INCOMPLETE)"))
 
     # ---- sequential, seeded histories
-    nhist = 1500 if quick else 20000
+    nhist = 3000 if quick else 40000
     done = 0
     for i in range(nhist):
         if R.deadline():
@@ -921,7 +921,7 @@ def run(R):
 
     # ---- threaded
     with _LineMode():
-        nprog = 60 if quick else 400
+        nprog = 80 if quick else 800
         cap = 400
         progs = list(CURATED)
         while len(progs) < nprog:
@@ -942,7 +942,7 @@ def run(R):
                                              "schedules": n})
         R.note("threaded DFS (<=2 pre-emptions): %d programs, %d schedules, %d programs exhausted"
                % (len(progs), total, ncomplete))
-        nrand = 1000 if quick else 10000
+        nrand = 2000 if quick else 25000
         done = 0
         for i in range(nrand):
             if R.deadline():
